@@ -147,6 +147,9 @@ func genSCase(r *drv.Rng, prof string) drv.SCase {
 	case "C08":
 		return genC08(g)
 	}
+	if prof == "C06" && !c.NoFwd && r.Chance(1, 5) {
+		return genHeldFail(g)
+	}
 	s1 := g.connect(true)
 	g.announce(s1, drv.U128{Hi: uint64(r.Intn(2)), Lo: uint64(1 + r.Intn(3))})
 	steps := 6 + r.Intn(16)
@@ -215,6 +218,77 @@ func genSCase(r *drv.Rng, prof string) drv.SCase {
 	}
 	g.add(drv.SStep{K: "get", Get: &drv.GetSpec{NI: "all", AFT: "ALL"}})
 	return c
+}
+
+// genHeldFail: held operations that fail when they are retried.  An explicit REPLACE of an installed entry towards a
+// group that does not exist yet is held; the entry is then deleted; the group arrives (alone or inside a batch, along
+// with other held operations that do resolve): the retried REPLACE fails and must be answered FAILED under its own id.
+func genHeldFail(g *srvGen) drv.SCase {
+	r := g.r
+	s := g.connect(true)
+	id := drv.U128{Hi: uint64(r.Intn(2)), Lo: uint64(1 + r.Intn(3))}
+	g.announce(s, id)
+	mk := func(ops ...drv.OpSpec) {
+		st := drv.SStep{K: "ops", S: s}
+		for _, op := range ops {
+			op.ID = g.id()
+			e := id
+			op.Elec = &e
+			st.Ops = append(st.Ops, op)
+		}
+		g.add(st)
+	}
+	ni := drv.Pick(r, 1, 1, 2)
+	gni := drv.Pick(r, 0, 0, 1, 3) // where the groups live (0: the entry's own instance)
+	gi := ni
+	if gni != 0 {
+		gi = gni
+	}
+	mk(drv.OpSpec{NI: gi, Kind: "ADD", T: "nh", Key: 1})
+	mk(drv.OpSpec{NI: gi, Kind: "ADD", T: "nhg", Key: 1, NHs: [][2]uint64{{1, 1}}})
+	n := 1 + r.Intn(2)
+	var tops []drv.OpSpec
+	for i := 0; i < n; i++ {
+		t := drv.OpSpec{NI: ni, T: []string{"v4", "v6", "mpls"}[(i+r.Intn(3))%3], NHGN: gni}
+		t.Key = map[string]uint64{"v4": uint64(1 + i), "v6": 1, "mpls": 100}[t.T]
+		tops = append(tops, t)
+		a := t
+		a.Kind, a.NHG = "ADD", 1
+		mk(a)
+	}
+	// held: explicit replaces towards group 2, plus an ADD of another entry towards group 2 (this one will resolve)
+	for _, t := range tops {
+		h := t
+		h.Kind, h.NHG = "REPLACE", 2
+		mk(h)
+	}
+	if r.Chance(1, 2) {
+		mk(drv.OpSpec{NI: ni, Kind: "ADD", T: "v4", Key: 3, NHG: 2, NHGN: gni})
+	}
+	if r.Chance(1, 3) {
+		mk(drv.OpSpec{NI: gi, Kind: "ADD", T: "nh", Key: 2})
+	}
+	for i, t := range tops {
+		if i == 0 || r.Chance(1, 2) {
+			d := t
+			d.Kind = "DELETE"
+			mk(d)
+		}
+	}
+	grp := drv.OpSpec{NI: gi, Kind: "ADD", T: "nhg", Key: 2, NHs: [][2]uint64{{1, 1}}}
+	if r.Chance(1, 2) {
+		mk(grp)
+	} else {
+		mk(drv.OpSpec{NI: gi, Kind: "ADD", T: "nh", Key: 3}, grp, drv.OpSpec{NI: gi, Kind: "DELETE", T: "nh", Key: 3})
+	}
+	if r.Chance(1, 2) {
+		id2 := drv.U128{Hi: id.Hi, Lo: id.Lo + 1}
+		g.announce(s, id2)
+		id = id2
+	}
+	mk(drv.OpSpec{NI: gi, Kind: "DELETE", T: "nhg", Key: 1})
+	g.add(drv.SStep{K: "get", Get: &drv.GetSpec{NI: "all", AFT: "ALL"}})
+	return *g.c
 }
 
 // genC08: a primary builds RIB shapes biased to shared / missing / cyclic backup groups and
@@ -704,7 +778,7 @@ func runSrv(prop string, args []string) error {
 	}
 	rules := map[string]string{
 		"C04": "multi-session scripts (connect / negotiate / announce / operate / disconnect, Get, Flush) with operation stamps drawn from {own last, highest, stale, future, none}; non-trivial = at least two sessions announced and at least one operation was rejected and one accepted; distinct by script text",
-		"C06": "one to three sessions, requests of 1..20 operations, held operations that later resolve or fail, empty/unknown instance names, primary hand-overs, RIB and FIB acknowledgement modes; non-trivial = some operation was held and acknowledged later, or a hand-over happened while operations were held; distinct by script text",
+		"C06": "one to three sessions (a fifth of the scripts: held explicit replaces whose entry is deleted before the missing group arrives, so that the retry fails), requests of 1..20 operations, held operations that later resolve or fail, empty/unknown instance names, primary hand-overs, RIB and FIB acknowledgement modes; non-trivial = some operation was held and acknowledged later, or a hand-over happened while operations were held; distinct by script text",
 		"C08": "a primary programs RIB shapes biased to shared / missing / cyclic backup groups and cross-instance references, then Flush requests over the decision table (instance none/all/name/unknown x election none/override/zero/lower/equal/higher, with and without server election state), Get before and after, delete probes; non-trivial = an authorised flush removed at least one entry while another instance kept entries, or a flush was rejected on a non-empty RIB; distinct by script text",
 		"C09": "message sequences over {params (every mode combination), election (zero/low/equal/high), operation (with/without id), multi-field, empty} on up to three concurrently open sessions; non-trivial = at least one RPC ended with a non-OK status; distinct by script text",
 	}
